@@ -24,11 +24,12 @@ IdMap(n) == [k \in 1..n |-> k - 1]
 IAdd(self, other) == AppendCircuit(self, other, IdMap(other.nq))
 \* __add__: deepcopy(self) += other
 Add(a, b, next) == LET d == DeepCopy(a, next) IN [c |-> IAdd(d.c, b), next |-> d.next]
-\* repeat(n): o = copy(); r = copy(); (n-1) x  r += o.copy()
+\* repeat(n): o = copy(); r = copy(); r.gates = [] when n = 0; (n-1) x  r += o.copy()
 RECURSIVE RepeatFrom(_, _, _, _)
 RepeatFrom(r, o, k, next) == IF k = 0 THEN [c |-> r, next |-> next]
                              ELSE LET d == DeepCopy(o, next) IN RepeatFrom(IAdd(r, d.c), o, k - 1, d.next)
-Repeat(a, n, next) == LET o == DeepCopy(a, next)  r == DeepCopy(a, o.next) IN RepeatFrom(r.c, o.c, n - 1, r.next)
+Repeat(a, n, next) == LET o == DeepCopy(a, next)  r == DeepCopy(a, o.next) IN
+                      IF n = 0 THEN [c |-> [r.c EXCEPT !.gates = <<>>], next |-> r.next] ELSE RepeatFrom(r.c, o.c, n - 1, r.next)
 AppendGate(self, g, next) == [c |-> [self EXCEPT !.gates = Append(@, [g EXCEPT !.id = next])], next |-> next + 1]
 
 SelfInverse(g) == g.k \in {"I", "X", "Y", "Z", "H", "SWAP", "MCX", "MCZ"}
